@@ -29,6 +29,7 @@ from happysimulator.core.event import ProcessContinuation
 
 PREFIX = {"multi": "MultiPaxos", "flex": "FlexPaxos"}
 CLASSNAME = {"multi": "MultiPaxosNode", "flex": "FlexiblePaxosNode"}
+FALSY = [0, "", False, 0.0, [], {}]
 LIVE_HEARTBEATS = 3  # bounded liveness: decided+applied everywhere within this many heartbeat intervals (+ 6 message delays)
 
 
@@ -41,8 +42,10 @@ class RecordingSM:
         self.applies = applies
 
     def apply(self, command):
-        self.applies.append(command.get("value") if isinstance(command, dict) else repr(command))
-        return self.inner.apply(command)
+        self.applies.append(LogMonitor.cid(command))
+        if isinstance(command, dict) and "op" in command:
+            return self.inner.apply(command)
+        return None  # opaque (e.g. falsy) command: recorded only
 
     def snapshot(self):
         return self.inner.snapshot()
@@ -89,6 +92,8 @@ def gen_log(kind: str):
                     t += rng.uniform(0.2 * hb, 1.2 * hb)
                     submits.append({"to": leader, "at": round(t, 6), "id": f"c{len(submits)}", "kick": True})
                 t += 2.5 * hb + rng.uniform(0, hb)
+            if submits and rng.random() < 0.3:
+                rng.choice(submits)["falsy"] = rng.choice(FALSY)
             case.update(
                 mode="live",
                 variant="handover",
@@ -145,6 +150,8 @@ def gen_log(kind: str):
                 }
             )
         submits.sort(key=lambda s: s["at"])
+        if rng.random() < 0.3:
+            rng.choice(submits)["falsy"] = rng.choice(FALSY)
         case.update(
             mode="chaos",
             script=script,
@@ -194,7 +201,9 @@ class LogMonitor:
 
     @staticmethod
     def cid(command):
-        return command.get("value") if isinstance(command, dict) else repr(command)
+        if isinstance(command, dict) and "value" in command:
+            return command["value"]
+        return "falsy:" + repr(command)  # opaque command (0, "", False, 0.0, [], {}): at most one per case
 
     def flag(self, oracle, shape, detail, extra=None):
         k = (oracle, shape)
@@ -451,7 +460,11 @@ def run_log(kind: str):
                     node = next((nd for nd in nodes if nd.is_leader), None) or by_name[sub["fallback"]]
                 else:
                     node = by_name[sub["to"]]
-                cmd = {"op": "set", "key": f"k{len(mon.submitted) % 3}", "value": sub["id"]}
+                if "falsy" in sub:
+                    cmd = sub["falsy"]  # a falsy command object (legal: submit(command: Any), state machine is the user's)
+                    sub = {**sub, "id": LogMonitor.cid(cmd)}
+                else:
+                    cmd = {"op": "set", "key": f"k{len(mon.submitted) % 3}", "value": sub["id"]}
                 mon.submitted[sub["id"]] = (ev.time.to_seconds(), node.name)
                 was_leader = node.is_leader
                 fut = node.submit(cmd)
